@@ -69,3 +69,10 @@ claim("C07", "model_checking",
       "read-back statement ids with the planned ones. `migrate import` from five third-party formats must preserve the statement sequence.",
       "Trusted: the harness's rendering of symbols and HCL escaping; inputs refused by the HCL layer are outside the domain. Five classes of genuine violations are recorded as known findings (see known_findings.json).",
       "3 C07")
+claim("C02", "model_checking",
+      "TLA+ schema algebra (SchemaModel.tla): TLC verifies the reference DiffSpec exact (complete and minimal) on every exported pair and exports the expected change sets; the three dialect differs are compared with them",
+      "TLC proves Exact(S,R) (applying DiffSpec gives R; removing any change does not) and DiffSpec(S,S) = {} for every pair in the edit neighbourhood of the seed catalogues (about 15,000 pairs quick; single edits from 413 states plus all "
+      "two-edit pairs thorough) and exports each pair with its expected change set. Every pair is instantiated for MySQL, PostgreSQL and SQLite and diffed by the real DefaultDiff in the CLI's normalized mode: the change multiset and "
+      "the kind flags must match, also with permuted declaration order; self / copy / permuted-copy diffs must be empty.",
+      "Trusted: the binding of opaque type/default/expression ids to concrete values; the model's feature set bounds what 'every elementary edit' means here.",
+      "3 C02")
